@@ -14,7 +14,8 @@ import traceback
 
 import z3
 
-from . import loader, summaries, models, shapes
+from . import loader, summaries, models, shapes, collections, melmodels, bigmodels
+import re as _re
 from .interp import Inconclusive, Unsupported, simp
 from .mirparse import MirSyntax
 
@@ -124,8 +125,11 @@ class Check:
         self.extra.update(log)
         self.interp.sym_value = shapes.sym_value
         self.interp.base_read_hooks = {}
+        self.interp.base_pair_hooks = {}
+        self.interp.base_single_hooks = {}
         self.interp.deser_hooks = {}
         self.interp.roots = []
+        self.interp.prefer_summary_rx = _re.compile(r'microergs_per_dosc$')
         return self.interp
 
     def _load_known(self):
@@ -275,8 +279,8 @@ class Check:
             res, cur, dt = self.solve(list(pc) + [neg] + excl + blocked)
             if res != 'sat':
                 break
-        raise Inconclusive('obligation %s: solver counterexample %s does not reproduce natively '
-                           '(encoding or summary suspect)' % (name, vals))
+        raise Inconclusive('obligation %s (%s): solver counterexample %s does not reproduce natively '
+                           '(encoding or summary suspect); last observation %s' % (name, describe, vals, str(observed)[:600]))
 
     def implied(self, pc, cond):
         """True if pc => cond, False if pc => not cond, None otherwise"""
@@ -295,6 +299,18 @@ class Check:
         if res != 'sat':
             raise Inconclusive('vacuity guard %s is not satisfiable (%s)' % (name, res))
         return model
+
+    def cover_any(self, name, alternatives):
+        """vacuity guard over several outcome states: at least one (pc, cond) must be satisfiable"""
+        t = 0.0
+        for pc, cond in alternatives:
+            res, model, dt = self.solve(list(pc) + ([cond] if cond is not None else []))
+            t += dt
+            if res == 'sat':
+                self.covers.append({'id': name, 'reachable': True, 'solver_s': round(t, 3)})
+                return model
+        self.covers.append({'id': name, 'reachable': False, 'solver_s': round(t, 3)})
+        raise Inconclusive('vacuity guard %s is not satisfiable on any explored outcome' % name)
 
     def sample(self, obj):
         if len(self.samples) < 12:
